@@ -162,6 +162,15 @@ var c20Loops = []string{
 	"last(range($n) | (.a? // .))", "last(range($n) | . as [$a] ?// $a | $a)", "last(range($n) | label $l | (., break $l))", "label $l | last(range($n))", "last(range($n) | tostring) | length", "last(range($n) | [., 1] | .[0])", "[range($n)] | length", "[range($n)] | last", "[range($n)] | map(. + 1) | add | . > 0", "[range($n)] | .[] |= . + 1 | length",
 }
 
+// call sites for a loop that ends with one result (%F is the start of the loop) ...
+var c20Sites = []string{"[%F] | .[0]", "(0, 1) | f", "try (%F) catch .", "(%F) // 7", "label $l | %F", "reduce (%F) as $r (0; . + $r)", "first(%F)", "{a: (%F)} | .a", "[limit(1; %F)] | .[0]", "0 as $q | %F", "def w: %F; w",
+	"(%F) as $r | $r", "[1, (%F)] | .[1]", "%F | . + 0", "[range(2) | f] | .[0]", "(%F)?", "[.[]?, (%F)] | .[0]", "if true then %F else 0 end", "(empty, (%F))", "first((%F), 5)", "[%F, 1] | .[0]", "(null | %F)", "def w(g): g; w(%F)",
+	"foreach (%F) as $r (0; . + $r)", "last(%F)", "isempty(%F) | if . then 0 else 1 end", "[(%F) | select(. >= 0)] | .[0]", "\"\\(%F)\" | length", "(%F) as [$a] ?// $a | $a", "[paths] as $p | %F"}
+
+// ... and for an unbounded generator
+var c20GenSites = []string{"(0, 1) | f", "try (%F) catch .", "(%F) // 7", "label $l | %F", "0 as $q | %F", "def w: %F; w", "(%F) as $r | $r", "%F | . + 0", "(%F)?", "if true then %F else 0 end", "(empty, (%F))", "(null | %F)", "def w(g): g; w(%F)",
+	"foreach (%F) as $r (0; . + 1)", "(%F) | select(. >= 0)", "(%F) as [$a] ?// $a | $a", "limit(1e9; %F)", "first(%F), (%F)", "(%F) | [.] | .[0]", "[1] | .[] as $e | %F"}
+
 // c20TR generates a parameterless definition body whose self call `name` is in
 // syntactic tail position. emit=true: the body also emits `.` before recursing
 // (an unbounded generator); otherwise it loops until `. >= $n`.
@@ -243,6 +252,12 @@ func init() {
 					mode = "gen"
 				}
 				kC20.Do(c, c20Case{Src: src, Mode: mode, N: ns[r.IntN(len(ns))]})
+				// the same definition started from a call site that has something pending (a fork, a frame, a binding)
+				site := c20Sites[r.IntN(len(c20Sites))]
+				if emit {
+					site = c20GenSites[r.IntN(len(c20GenSites))]
+				}
+				kC20.Do(c, c20Case{Src: "def f: " + body + "; " + strings.ReplaceAll(site, "%F", "0 | f"), Mode: mode, N: ns[r.IntN(len(ns))]})
 			}
 		},
 	})
